@@ -223,22 +223,26 @@ def r_single_writer(model, rep, owner, attr, allowed, rule_id="R-SINGLE-WRITER")
 
 
 def r_load_via_add(model, rep):
-    """every Image created by Images.deserialize reaches self.add on every path (directly or through _add_1_1)"""
+    """every record of the images table reaches self.add on every path (directly or through _add_1_1), for every header
+    version"""
     f = model.own_method("images.Images", "deserialize")
     cx = facts.fctx(model, f)
     S = P(cx.selfname)
-    created = [ev for ev in cx.events if ev.kind == "bind" and T.unwrap(ev.value)[0] == "call" and T.unwrap(ev.value)[1] == ("global", "Image")]
-    ok, msg = len(created) == 1, "expected one Image(...) per record"
-    if ok:
-        img = created[0].value
-        routes = [ev for ev in cx.events if ev.kind == "call" and ev.value[1][0] == "attr" and ev.value[1][1] == S and ev.value[1][2] in ("add", "_add_1_1")
-                  and img in ev.value[2] and ev.loops == created[0].loops]
-        # the routes' guards must be complementary version gates: for every version exactly one is active
-        grid = facts.version_grid("quick")
-        ok = bool(routes) and all(sum(1 for r in routes if facts.active_at(r, v)) == 1 for v in grid) \
-            and all(not facts.non_gate_guards(r) for r in routes)
-        msg = "for every header version exactly one of self.add / self._add_1_1 must receive the image, unconditionally"
-    rep.ob("R-LOAD-VIA-ADD", "Images.deserialize", ok, site=cx.site(f.node), msg="" if ok else msg)
+    IN = P(cx.params[1])
+    tab = ("sub", ("sub", IN, ("const", "payload")), ("const", "images"))
+    routes = [ev for ev in cx.events if ev.kind == "call" and ev.value[1][0] == "attr" and ev.value[1][1] == S
+              and ev.value[1][2] in ("add", "_add_1_1") and len(ev.loops) >= 3
+              and T.contains(T.norm_items(ev.loops[-1][1]), lambda x: x == tab)]
+    grid = facts.version_grid("quick")
+    ok = bool(routes) and all(sum(1 for r in routes if facts.active_at(r, v)) == 1 for v in grid) \
+        and all(not facts.non_gate_guards(r) for r in routes)
+    # no break/continue/return inside the record loops
+    lids = set(l[0] for r in routes for l in r.loops)
+    cut = [ev for ev in cx.events if ev.kind in ("break", "continue", "return") and set(l[0] for l in ev.loops) & lids]
+    ok = ok and not cut
+    rep.ob("R-LOAD-VIA-ADD", "Images.deserialize", ok, site=cx.site(f.node),
+           msg="" if ok else "for every header version exactly one of self.add / self._add_1_1 must be called, unconditionally, for every "
+                             "record of payload/images")
     g = model.own_method("images.Images", "_add_1_1")
     gcx = facts.fctx(model, g)
     S = P(gcx.selfname)
@@ -246,6 +250,35 @@ def r_load_via_add(model, rep):
     ok = len(adds) == 2 and all(ev.value[2][2] == P(gcx.params[4]) for ev in adds)
     rep.ob("R-LOAD-VIA-ADD", "Images._add_1_1", ok, site=gcx.site(g.node),
            msg="" if ok else "_add_1_1 must file the image through self.add() on both branches")
+
+
+def r_arch_guards_dominate(model, rep):
+    """both architecture refusals are in force (negated) at every mutation of the table"""
+    from .builders import _fref
+    for q, table_attr in (("images.Images.add", "images"), ("rpms.Rpms.add", "rpms")):
+        f = _fref(model, q)
+        cx = facts.fctx(model, f)
+        S = P(cx.selfname)
+        arch = P("arch")
+        muts = []
+        for ev in cx.events:
+            if ev.kind == "store" and T.root_of(ev.target) == S:
+                muts.append(ev)
+            elif ev.kind == "call" and ev.value[1][0] == "attr" and ev.value[1][2] in ("setdefault", "add", "append", "update") \
+                    and T.root_of(ev.value[1][1]) == S and ev.value[1][1] != S:
+                muts.append(ev)
+        if not muts:
+            raise AnalysisError("R-ARCH-GUARD: no mutation of the table found in %s" % q)
+        bad = []
+        for ev in muts:
+            known = any(g[1] is False and g[0][0] == "cmp" and g[0][1] == ("not in",) and g[0][2][0] == arch for g in ev.guards) or \
+                any(g[1] is True and g[0][0] == "cmp" and g[0][1] == ("in",) and g[0][2][0] == arch and g[0][2][1][0] == "global" for g in ev.guards)
+            nosrc = any(g[1] is False and g[0][0] == "cmp" and g[0][1] == ("in",) and g[0][2][0] == arch and g[0][2][1][0] != "global" for g in ev.guards)
+            if not (known and nosrc):
+                bad.append(ev.lineno)
+        rep.ob("R-ARCH-GUARD", "%s:guards-dominate-insertion" % q, not bad, site=cx.site(bad[0] if bad else f.node),
+               msg="" if not bad else "the table is modified at line(s) %s on a path on which the architecture has not been checked against "
+                                     "RPM_ARCHES and against src/nosrc" % sorted(set(bad)))
 
 
 @register("C09")
@@ -378,7 +411,7 @@ def check_c10(model, rep, tier):
     rep.explanation = (
         "Decided structurally: Images.add and Rpms.add refuse (ValueError) an architecture outside the folded RPM_ARCHES "
         "table and the architectures 'src'/'nosrc' (the table does contain them, so the second guard is not vacuous), and "
-        "both refusals precede the insertion on every path (path walker, R-ADD-ATOMIC); nothing outside the allowed "
+        "the negation of both refusals is in force at every modification of the table (guard stacks of def-use events); nothing outside the allowed "
         "functions writes Images.images / Rpms.rpms; the 1.0/1.1 image converter re-files a 'src' image under every "
         "architecture of the same variant except 'src' and never passes 'src' to add(); its gate equals 'version <= 1.1' "
         "on a version grid; the rpms 0.3 reader skips 'src' before any add, looks the source package up in the variant's "
@@ -387,9 +420,7 @@ def check_c10(model, rep, tier):
     rep.not_decided = ["value-level content of the re-filed tables"]
     _install_validate_summary(model)
     r_arch_guard(model, rep)
-    builders = builder_refs(model)
-    check_atomic(model, rep, "R-ADD-ATOMIC", model.own_method("images.Images", "add"), builders)
-    check_atomic(model, rep, "R-ADD-ATOMIC", model.own_method("rpms.Rpms", "add"), builders)
+    r_arch_guards_dominate(model, rep)
     r_single_writer(model, rep, "images.Images", "images", {"add", "__delitem__", "__init__"})
     r_single_writer(model, rep, "rpms.Rpms", "rpms", {"add", "__delitem__", "__init__", "deserialize_1_0", "deserialize_0_3"})
     r_src_route(model, rep)
